@@ -22,12 +22,13 @@ struct Ctx<'a> {
     key: &'a str,
     runs: usize,
     budget: usize,
+    deadline: std::time::Instant,
 }
 
 impl<'a> Ctx<'a> {
     /// Some((decisions, hash, detail)) if the scenario (with an optional decision list) still fails the same way
     fn fails(&mut self, scn: &Scenario, dec: Option<Vec<u16>>, tolerant: bool) -> Option<(Vec<u16>, u64, String)> {
-        if self.runs >= self.budget {
+        if self.runs >= self.budget || std::time::Instant::now() > self.deadline {
             return None;
         }
         self.runs += 1;
@@ -223,8 +224,14 @@ fn candidates(scn: &Scenario) -> Vec<Scenario> {
     v
 }
 
-pub fn minimise(prop: &str, scn: &Scenario, key: &str, budget: usize) -> Minimised {
-    let mut ctx = Ctx { prop, key, runs: 0, budget };
+pub fn minimise(prop: &str, scn: &Scenario, key: &str, budget: usize, seconds: f64) -> Minimised {
+    let mut ctx = Ctx {
+        prop,
+        key,
+        runs: 0,
+        budget,
+        deadline: std::time::Instant::now() + std::time::Duration::from_secs_f64(seconds),
+    };
     let mut cur = scn.clone();
     let (mut dec, mut hash, mut detail, reproduced) = match ctx.fails(&cur, None, false) {
         Some((d, h, det)) => (d, h, det, true),
@@ -242,7 +249,8 @@ pub fn minimise(prop: &str, scn: &Scenario, key: &str, budget: usize) -> Minimis
     }
     // 1. workload
     let mut progress = true;
-    while progress && ctx.runs < ctx.budget * 3 / 4 {
+    let phase1_end = std::time::Instant::now() + std::time::Duration::from_secs_f64(seconds * 0.6);
+    while progress && ctx.runs < ctx.budget * 3 / 4 && std::time::Instant::now() < phase1_end {
         progress = false;
         for c in candidates(&cur) {
             if c == cur {
@@ -277,6 +285,7 @@ pub fn minimise(prop: &str, scn: &Scenario, key: &str, budget: usize) -> Minimis
     }
     // final confirmation: exact replay of the recorded list
     ctx.budget = ctx.runs + 1;
+    ctx.deadline = std::time::Instant::now() + std::time::Duration::from_secs(120);
     let ok = match ctx.fails(&cur, Some(dec.clone()), false) {
         Some((d, h, _)) => d == dec && h == hash,
         None => {
